@@ -1560,7 +1560,9 @@ class Server:
         return await self.stor(connection, rest, "ab")
 
     async def rest(self, connection, rest):
-        if rest.isascii() and rest.isdigit():
+        # at most 18 digits: every offset below 10**18 (< 2**63) and never a
+        # digit string int() refuses (sys.get_int_max_str_digits(), 4300)
+        if rest.isascii() and rest.isdigit() and len(rest) <= 18:
             connection.restart_offset = int(rest)
             connection.response("350", f"restarting at {rest}")
         else:
